@@ -49,6 +49,10 @@ StepEv(cls, st, ev, np, ne) ==
     [] ev.e = "S" -> IF cls = "SmoothStronglyConvexQuadraticFunction" THEN st       \* returns the existing one
                      ELSE [st EXCEPT !.S = Append(@, Mk(UnitV(np, p + 1), ZeroV(np), ELeaf(np, ne, q + 1), TRUE)),
                                      !.p = p + 1, !.q = q + 1]
+       \* a stationary point declared through the scaled function F = f/2: F.stationary_point() creates (x, 0, fF) and
+       \* add_point hands the remainder to f: the sample (x, 0, 2 fF), which is a stationary sample of f
+    [] ev.e = "Q" -> [st EXCEPT !.S = Append(@, Mk(UnitV(np, p + 1), ZeroV(np), EScale(Two, ELeaf(np, ne, q + 1)), TRUE)),
+                                !.p = p + 1, !.q = q + 1]
     [] ev.e = "X" -> [st EXCEPT !.S = Append(@, Mk(UnitV(np, p + 1), UnitV(np, p + 1), ELeaf(np, ne, q + 1), FALSE)),
                                 !.p = p + 1, !.q = q + 1]
        \* a further subgradient at an evaluated point: the value is the recorded one, the subgradient is fresh
@@ -87,10 +91,11 @@ Go(ev) == Len(hist) < Depth /\ hist' = Append(hist, ev) /\ UNCHANGED <<cls, orde
 DoO == Go(Ev("O", 0))
 DoS == Go(Ev("S", 0))
 DoX == Go(Ev("X", 0))
+DoQ == cls # "SmoothStronglyConvexQuadraticFunction" /\ Go(Ev("Q", 0))
 DoR == cls \in NonDiff /\ \E k \in 1..NS : Go(Ev("R", k))
 DoT == cls = "LinearOperator" /\ Go(Ev("T", 0))
 DoU == cls = "LinearOperator" /\ NS > 0 /\ Go(Ev("U", 0))
-Next == DoO \/ DoS \/ DoX \/ DoR \/ DoT \/ DoU
+Next == DoO \/ DoS \/ DoX \/ DoQ \/ DoR \/ DoT \/ DoU
 Spec == Init /\ [][Next]_vars
 
 \* ---- the documented set depends only on the set of samples ------------------------------------------
